@@ -51,7 +51,18 @@ def check(rep, tier):
             "with what value, what was delivered before and what happens on retry are compared with machine and reference models")
     rtprops.correspondence(rep, "C18", cases, rule,
                            what="a panic is reported by a different call / with a different value / changes other state than in the reference")
-    rep.coverage["note"] = "compiled-generator part of C18 (panicking statement at every position of a source program) is covered by the compiler checks"
+    # compiled generators: panicking atoms at random positions of source programs, compiled vs reference
+    import ccheck
+    import cprops
+    rt_cov = dict(rep.coverage)
+    cfg = cprops.CFG["C18"]
+    listed = [e["id"] for e in C.known_findings("C18") if e["kind"] == "finding"]
+    ccheck.run(rep, "C18", cfg["feats"], 200 if tier == "quick" else 2000, [f for f in cfg["findings"] if f in listed],
+               cfg["rule"], corpus=cfg.get("corpus"))
+    comp_cov = {k: v for k, v in rep.coverage.items() if rt_cov.get(k) != v}
+    rep.coverage.update(rt_cov)
+    rep.coverage["compiled_generators"] = comp_cov
+    rep.coverage["evaluations"] = rt_cov.get("evaluations", 0) + comp_cov.get("evaluations", 0)
 
 
 replay = rtprops.replay
